@@ -130,6 +130,32 @@ def run_cell(cell, seed):
         out.append(res(HELD, case, 'M-ENERGY', ratio=ratio) if max(e1, e2) <= t else
                    res(VIOLATED, case, 'M-ENERGY', 'energy off by %.3e, inner product off by %.3e (tol %.3e)' % (e1, e2, t),
                        ratio=ratio))
+    # converted modules (built in float32 + .double(); built in float64 + .float()): still an orthogonal pair,
+    # to float32 tap / arithmetic precision
+    import torch
+    for bdt, conv, dt, eps in ((torch.float32, 'double', torch.float64, 2e-6), (torch.float64, 'float', torch.float32, 1e-4)):
+        case = {'cell': cell, 'check': 'converted', 'modules': 'built %s, .%s()' % (str(bdt).replace('torch.', ''), conv)}
+        try:
+            f3, i3 = getattr(c01.build(cell, bdt), conv)(), getattr(c10.build(cell, bdt), conv)()
+        except Exception as e_:
+            out.append(res(VIOLATED, case, 'M-ORTH', 'conversion raised %r' % (e_,)))
+            continue
+        ok, y3 = util.call_lib(f3, util.impulses(sp, dt))
+        yl3, yh3 = c10.make_pyramid(cell, 'impulse', seed, full=True)
+        ok2, r3 = util.call_lib(i3, (yl3.to(dt), [h.to(dt) for h in yh3]))
+        if not (ok and ok2):
+            out.append(res(VIOLATED, case, 'M-ORTH', 'converted module raised %r' % ((y3 if not ok else r3),)))
+            continue
+        A3 = util.operator_from_impulses(util.flat_outputs(y3), n_in)
+        S3 = util.np64(r3).reshape(n_in, -1).T
+        if A3.shape != A.shape or S3.shape != A.T.shape:
+            out.append(res(VIOLATED, case, 'M-ORTH', 'converted operators have shapes %s / %s' % (A3.shape, S3.shape)))
+            continue
+        t3 = tol + eps * max(G, 1.0) ** 2 * J * dim
+        e = max(float(np.abs(A3 - A).max()), float(np.abs(S3 - A.T).max()))
+        out.append(res(HELD, case, 'M-ORTH', ratio=e / t3) if e <= t3 else
+                   res(VIOLATED, case, 'M-ORTH', 'converted analysis / synthesis operators differ from the native float64 ones by %.3e '
+                                                 '(tol %.3e)' % (e, t3), ratio=e / t3))
     # history: both modules reloaded in place with another orthogonal wavelet of the same length
     other = [w2 for w2 in ortho_wavelets() if w2 != w and refs.flen(w2) == L and pywt.Wavelet(w2).dec_lo != pywt.Wavelet(w).dec_lo]
     if other:
